@@ -73,7 +73,9 @@ def run(mir_path, scenario, src_dir):
             kinds, toks = [], []
             for i in range(L):
                 c = chars[d][i]
-                ctx.assume(z3.ULE(c, 0x10FFFF))
+                # printable ASCII: there the harness's token kinds ('.', ',', blank, else word) agree with what the lexer would produce
+                # (a tab or U+00A0 classed as a *word* is a document no parser yields)
+                ctx.assume(z3.And(z3.UGE(c, 32), z3.ULE(c, 126)))
                 if many and i == L - 1:
                     ctx.assume(c == 46)  # the document is one clause ending in a period
                 if ctx.branch(c == 46):
@@ -170,7 +172,9 @@ def run(mir_path, scenario, src_dir):
             if ok:
                 for (gs, ge, gt), (ws, we, wt) in zip(got, want):
                     claim = z3.And(claim, z3.BoolVal(gt == wt), gs.t == ws, ge.t == we)
-            valid, model = ctx.valid(claim)
+            # prefer counterexamples the plain-English lexer tokenises the same way: lower-case letters, blanks, '.', ','
+            nice = [z3.Or(z3.And(z3.UGE(c, 97), z3.ULE(c, 122)), c == 32, c == 46, c == 44) for cs in chars for c in cs]
+            valid, model = ctx.valid(claim, nice)
             if not valid:
                 m = model
                 result["violations"].append({
